@@ -55,11 +55,20 @@ func trBaseIdent(e ast.Expr) *ast.Ident {
 
 // assignedIn: local variables assigned inside the nodes but declared outside of them, in declaration order
 func (c *trCtx) assignedIn(nodes ...ast.Node) []types.Object {
+	return c.assignedIn2(false, nodes...)
+}
+
+// assignedIn2 with through=true: only the variables assigned THROUGH (x.f = e, x[k] = e, delete(x, k), a callee that assigns through
+// its parameter), not those that are merely rebound (x = e)
+func (c *trCtx) assignedIn2(through bool, nodes ...ast.Node) []types.Object {
 	defined := map[types.Object]bool{}
 	assigned := map[types.Object]bool{}
 	mark := func(e ast.Expr) {
 		id := trBaseIdent(e)
 		if id == nil || id.Name == "_" {
+			return
+		}
+		if _, bare := trUnparen(e).(*ast.Ident); bare && through && !c.markingCall {
 			return
 		}
 		if o, ok := c.info().Uses[id].(*types.Var); ok && !(o.Pkg() != nil && o.Parent() == o.Pkg().Scope()) {
@@ -95,6 +104,7 @@ func (c *trCtx) assignedIn(nodes ...ast.Node) []types.Object {
 					}
 				}
 			case *ast.CallExpr:
+				c.markingCall = true
 				if id, ok := x.Fun.(*ast.Ident); ok && id.Name == "delete" && len(x.Args) == 2 {
 					mark(x.Args[0])
 				}
@@ -105,6 +115,7 @@ func (c *trCtx) assignedIn(nodes ...ast.Node) []types.Object {
 						}
 					}
 				}
+				c.markingCall = false
 			case *ast.FuncLit:
 				return false
 			}
@@ -722,6 +733,7 @@ func (c *trCtx) mutCall(call *ast.CallExpr, tf *trFunc, recv ast.Expr, lhs []ast
 	for _, a := range call.Args {
 		args = append(args, c.expr(a))
 	}
+	args = append(args, c.passExtras(tf)...)
 	c.fn.deps = append(c.fn.deps, tf)
 	app := c.t.qname(c.unit(), tf.unit, tf.leanName) + " " + strings.Join(args, " ")
 	var v string
